@@ -1,7 +1,7 @@
-\* C06 thorough: 2 persistent substores, 2 transient keys
+\* C06 thorough: 2 persistent substores + the transient one
 CONSTANTS
   Stores = {"s1", "s2"}
-  NK = 2  NV = 2  NTK = 2  MaxVer = 2  MaxWrites = 2  MaxViews = 1
+  NK = 2  NV = 2  NTK = 1  MaxVer = 2  MaxWrites = 2  MaxViews = 1
   IterBounds <- FullOnly
   Features = {"close", "transient"}
   FirstBlockFixed = FALSE
